@@ -63,6 +63,11 @@ def main():
                      if os.path.isfile(os.path.join(d, f)) and not f.endswith((".data", ".c", ".txt", ".h")) and os.path.getsize(os.path.join(d, f)) < 1500000]
             files = sorted(set(files + extra))
             pick = sorted(rng.sample(files, min(len(files), 140 if tier == "quick" else len(files))))
+            # one file of every file-name extension (a proxy for 'every format'), so that per-format mutants exist for all of them
+            byext = {}
+            for f in files:
+                byext.setdefault(os.path.splitext(f)[1].lower() or os.path.basename(f).split(".")[0].lower(), []).append(f)
+            pick += [fs[0] for e, fs in sorted(byext.items()) if fs[0] not in pick]
             # every container / archive of the corpus is always in (their recognition goes through the unpack stage and helper programs)
             pick += [f for f in files if f not in pick and is_container(open(f, "rb").read(1024))]
             pick += [f for f in files if f not in pick and os.path.basename(f) in ("Diamond.j2b", "titletheme.fuchs", "Mexx-Paeckchen50-intro.TrackerPacker1", "Delite-NeSouthEast51-menu.ProPacker1")]   # inputs of recorded findings
